@@ -60,7 +60,7 @@ def runPackets : Rx Pkg → RxOut → List String → Option (Rx Pkg × RxOut)
   | rx, o, [] => some (rx, o)
   | rx, o, t :: ts =>
     -- `snd`: the client sends a message at this point; sending touches nothing on the receive side
-    if t == "snd" then runPackets rx o ts else
+    if t == "snd" ∨ t.startsWith "W:" then runPackets rx o ts else   -- `W:<hex>`: the complete response, for an oracle only
     match t.splitOn ":" with
     | ["H", ty] | ["h", ty] =>   -- H: header-only packet with the EOM status; it is not queued, so the status is irrelevant
       match ty.toNat? with
